@@ -114,6 +114,7 @@ class Run:
     def __init__(s, ctx, m, info, cfg):
         s.ctx = ctx; s.m = m; s.info = info; s.cfg = cfg; s.n = info['n']
         s.w = core.world(ctx.bdir, ['cen_' + cfg, 'gbf_' + cfg]); s.w.hooks = dict(s.w.base_hooks)
+        s.w.soft_pre = True
         s.alg = fmode.Alg('poly'); fmode.install_scalar(s.w, s.alg); fmode.install_lanes(s.w, s.alg, ctx, cfg)
         s.args = {}; s.uobjs = {}; s.svars = {}
     def stride_vals(s, r, g):
@@ -211,6 +212,10 @@ def check_overload(ctx, m, cfg):
     run = Run(ctx, m, info, cfg)
     try: A, B = run.execute()
     except Violation as e: return viol('%s/%s' % (m['name'], e.kind), '%s [line %s]: %s' % (sig, m['line'], e.msg), replay=dict(event=str(e), mangled=m['mangled']))
+    pfs = list(getattr(run.w, 'pre_failures', []))
+    if pfs:
+        fills = kernel_fills(ctx, cfg, pfs[0], info['n'])
+        return confirm(ctx, m, info, cfg, sig, 'the operand assumption of Goldilocks::%s is not implied at its call site (%s)' % (pfs[0]['kernel'], pfs[0]['msg'][:90]), None, fills=fills)
     spec = run.spec(A, B); out = info['out']; alg = run.alg; n = run.n; nq = 0
     def cong(x, y): return (alg.toz3(x) - alg.toz3(y)) % P == 0
     def ask(neg, what, tmo=60):
@@ -265,26 +270,138 @@ def check_overload(ctx, m, cfg):
               sample=dict(overload=sig, line=m['line'], lanes=n, roles=dict(out=repr(out), a=repr(info['a']), b=repr(info['b']))))
 
 # ---------------------------------------------------------------- native confirmation with small concrete strides
-def confirm(ctx, m, info, cfg, sig, text, mdl):
-    """replay on the native build: arrays of 64 words with distinct contents, strides from the model when small, else a fixed set"""
-    import itertools
+def kernel_fills(ctx, cfg, pf, n):
+    """an operand assumption of a lane kernel is not implied at its call site: ask the solver, bit-precisely on the real kernels, for operand
+       words that violate the assumption and make the kernel return the wrong class: directly, and as the output of a producer kernel
+       (mult/add/sub of canonical values).  Returns candidate fills [{'a': word, 'b': word}] for the overload's operands."""
+    from .props import lanes as L
+    T = L.table(n == 8); spec = T.get(pf['kernel']); fills = []
+    if spec is None or not spec['pre']: return fills
+    sfx = '_avx512' if n == 8 else '_avx'
+    same = False
+    try:
+        x0, y0 = pf['ins'][0][0], pf['ins'][1][0]
+        same = (x0 is y0) or (z3.is_expr(x0) and z3.is_expr(y0) and z3.eq(x0, y0))
+    except Exception: pass
+    NV = [dict(limb_min=0, abstract=False, logic='QF_NIA', share=0.5), dict(limb_min=0, abstract=False, logic=None, share=0.5)]
+    def consumer(a, b):
+        def mk(w_):
+            oc = Obj(8 * n, 'c', 8 * n); oa = core.obj_words('a', [a] * n, 8 * n); ob_ = core.obj_words('b', [b] * n, 8 * n)
+            return [Ptr(oc, 0), Ptr(oa, 0), Ptr(ob_, 0)], (lambda ret: [core.words(oc)])
+        return kern.run_kernel(ctx, cfg, L.MODS[cfg], pf['fn'], mk)[0][2][1][0][0]
+    # (1) direct: arbitrary words
+    a = core.bv64('wa'); b = core.bv64('wb'); out = consumer(a, a if same else b)
+    r = smt.prove(lambda tr: spec['goal'](L.Z(tr, {'a': a, 'b': a if same else b}, [out])), timeout=40, variants=NV)
+    if r.status == 'sat': fills.append(dict(a=r.model.get('wa', 0), b=r.model.get('wa' if same else 'wb', 0), how='direct'))
+    # (2) second operand produced by a field kernel from canonical values x, y
+    for prod in ('mult', 'add', 'sub'):
+        pname = prod + sfx; x = core.limb64('px'); y = core.limb64('py'); a2 = core.bv64('wa')
+        def mk(w_):
+            o1 = Obj(8 * n, 'prod', 8 * n); ox = core.obj_words('x', [x] * n, 8 * n); oy = core.obj_words('y', [y] * n, 8 * n)
+            return [Ptr(o1, 0), Ptr(ox, 0), Ptr(oy, 0)], (lambda ret: [core.words(o1)])
+        pv = kern.run_kernel(ctx, cfg, L.MODS[cfg], L.find(ctx, cfg, pname, T[pname], n), mk)[0][2][1][0][0]
+        out2 = consumer(pv if same else a2, pv)
+        r = smt.prove(lambda tr: spec['goal'](L.Z(tr, {'a': pv if same else a2, 'b': pv}, [out2])), assumptions=[lambda tr: z3.And(tr.val(x) < P, tr.val(y) < P)], timeout=60, variants=NV)
+        if r.status == 'sat':
+            fills.append(dict(a=core.limbval(r.model, 'px'), b=core.limbval(r.model, 'py'), how='operands of ' + pname, other=r.model.get('wa', 0)))
+            fills.append(dict(a=core.limbval(r.model, 'py'), b=core.limbval(r.model, 'px'), how='operands of ' + pname + ' (swapped)'))
+    return fills
+
+def confirm(ctx, m, info, cfg, sig, text, mdl, fills=()):
+    """replay: arrays with distinct contents, strides from the model when small (native), sparse interpreter replay for large strides,
+       operand fills from kernel-level solver witnesses, then a fixed set of small strides"""
     n = info['n']; rng = ctx.rng(m['mangled'])
-    cand_strides = []
+    cand = []
     if mdl is not None:
         vals = {str(d): mdl[d].as_long() for d in mdl.decls() if z3.is_bv_value(mdl[d])}
-        cand_strides.append(vals)
-    cand_strides += [None, 'alt', 'perm']
-    for cs in cand_strides:
-        try: r = native_run(ctx, m, info, cfg, cs, rng)
-        except Exception as e: return inconc('%s: %s; native replay failed: %s: %s' % (sig, text, type(e).__name__, e))
+        cand.append((vals, None))
+    for f in fills: cand += [(None, f), ('alt', f)]
+    cand += [(None, None), ('alt', None), ('perm', None)]
+    for cs, f in cand:
+        try:
+            r = native_run(ctx, m, info, cfg, cs, rng, fill=f)
+            if r is None and isinstance(cs, dict): r = sparse_run(ctx, m, info, cfg, cs, rng)
+        except Exception as e: return inconc('%s: %s; replay failed: %s: %s' % (sig, text, type(e).__name__, e))
         if r is None: continue
         bad, detail, rep = r
-        if bad: return viol(m['name'], '%s [line %s]: %s; native run: %s' % (sig, m['line'], text, detail), replay=rep)
-    return inconc('%s: %s, but no concrete native run reproduces a difference' % (sig, text))
+        if bad: return viol(m['name'], '%s [line %s]: %s; concrete run%s: %s' % (sig, m['line'], text, (' with operands filled from the solver witness (%s)' % f['how']) if f else '', detail), replay=rep)
+    return inconc('%s: %s, but no concrete run reproduces a difference (%d candidates)' % (sig, text, len(cand)))
+
+class SparseCells(dict):
+    """memory of an unsized array for the interpreter's concrete mode: unwritten cells hold a deterministic pseudo-random word"""
+    def __init__(s, seed, canonical=True): dict.__init__(s); s.seed = seed; s.canonical = canonical
+    def default(s, k):
+        v = (k * 0x9E3779B97F4A7C15 + s.seed * 0xD1B54A32D192ED03 + 12345) & (2**64 - 1); v ^= v >> 29; v = (v * 0xBF58476D1CE4E5B9) & (2**64 - 1)
+        return v % P
+    def get(s, k, d=None):
+        if dict.__contains__(s, k): return dict.__getitem__(s, k)
+        return s.default(k)
+
+def sparse_run(ctx, m, info, cfg, cs, rng):
+    """concrete re-execution in the interpreter with unsized sparse arrays: any 64-bit strides (index arithmetic wraps like the C code's)"""
+    n = info['n']; M64 = 2**64
+    def sx(v): v &= M64 - 1; return v - M64 if v >> 63 else v
+    w = core.world(ctx.bdir, ['cen_' + cfg, 'gbf_' + cfg]); w.reset(); w.hooks = dict(w.base_hooks); it = Interp(w)
+    args = {}; arrs = {}; strides = {}
+    def stride_for(r):
+        if r.stride is None: return None
+        nm, kind, bits = r.stride
+        if kind == 'scalar':
+            v = cs.get(nm, 3 if r.dim == 3 else 1) & ((1 << bits) - 1); args[nm] = v; return ('scalar', v)
+        vs = [cs.get('%s_%d' % (nm, k), 3 * k) & (M64 - 1) for k in range(n)]; args[nm] = Ptr(core.obj_words(nm, vs, 8), 0); return ('list', vs)
+    def cell(r, st, k, i):
+        if r.const: return i
+        if st is None: return k * (3 if r.dim == 3 else 1) + i
+        if st[0] == 'scalar': return sx(sx(k * st[1]) + i)
+        return sx(st[1][k] + i)
+    def operand(g, r, is_out=False):
+        st = stride_for(r); strides[g] = st
+        if r.kind == 'arr':
+            o = Obj(None, g, 64, 'arg'); o.cells = SparseCells({'a': 1, 'b': 2, 'out': 3}[g]); arrs[g] = o; args[r.names[0]] = Ptr(o, 0)
+            return [[o.cells.get(cell(r, st, k, i)) for i in range(r.dim)] for k in range(n)]
+        if r.kind == 'bcast':
+            v = rng.getrandbits(64) % P; args[r.names[0]] = v; return [[v] for k in range(n)]
+        if r.kind == 'reg':
+            vs = [rng.getrandbits(64) % P for k in range(n)]; o = core.obj_words(g, vs, 8 * n); arrs[g] = o; args[r.names[0]] = Ptr(o, 0); return [[v] for v in vs]
+        if r.kind == 'planar':
+            vs = [[rng.getrandbits(64) % P for i in range(3)] for k in range(n)]; o = core.obj_words(g, [vs[k][i] for i in range(3) for k in range(n)], 8 * n); arrs[g] = o; args[r.names[0]] = Ptr(o, 0); return vs
+        vs = [[rng.getrandbits(64) % P for i in range(3)] for k in range(n)]; arrs[g] = []
+        for i in range(3):
+            if r.byval and not is_out: args[r.names[i]] = [vs[k][i] for k in range(n)]
+            else: o = core.obj_words('%s%d' % (g, i), [vs[k][i] for k in range(n)], 8 * n); arrs[g].append(o); args[r.names[i]] = Ptr(o, 0)
+        return vs
+    A = operand('a', info['a']); B = operand('b', info['b']) if info['b'] else None; operand('out', info['out'], True)
+    if info['aux'] is not None:
+        ax = info['aux']
+        if ax.kind == 'planar3':
+            for i in range(3): args[ax.names[i]] = [[(B[k][0] + B[k][1]) % P, (B[k][0] + B[k][2]) % P, (B[k][1] + B[k][2]) % P][i] for k in range(n)]
+        else: args[ax.names[0]] = Ptr(core.obj_words('aux', [(B[0][0] + B[0][1]) % P, (B[0][0] + B[0][2]) % P, (B[0][1] + B[0][2]) % P], 8), 0)
+    it.call('@' + m['mangled'], [args[nm] for nm, ty in info['params']])
+    pr = Run.__new__(Run); pr.info = info; pr.n = n; spec = Run.spec(pr, A, B); out = info['out']; st = strides.get('out'); det = None
+    if out.kind == 'arr':
+        o = arrs['out']; exp = {}
+        for k in range(n):
+            for i in range(out.dim): exp[cell(out, st, k, i)] = spec[k][i] % P
+        for c in set(exp) | set(dict.keys(o.cells)):
+            g = o.cells.get(c); e = exp.get(c, o.cells.default(c))
+            if not is_c(g) or g % P != e % P: det = 'output element %d = %s, expected %#x' % (c, hex(g) if is_c(g) else g, e); break
+    else:
+        for k in range(n):
+            for i in range(out.dim):
+                g = arrs['out'].cells.get(k) if out.kind == 'reg' else (arrs['out'].cells.get(i * n + k) if out.kind == 'planar' else arrs['out'][i].cells.get(k))
+                if not is_c(g) or g % P != spec[k][i] % P: det = 'lane %d coefficient %d = %s, expected %d' % (k, i, g, spec[k][i] % P); break
+            if det: break
+    for g in ('a', 'b'):
+        if isinstance(arrs.get(g), Obj) and isinstance(arrs[g].cells, SparseCells) and len(dict.keys(arrs[g].cells)): det = det or 'input array %s was written' % g
+    rep = dict(mangled=m['mangled'], cfg=cfg, sparse=True, strides={k: (list(v[1]) if v and v[0] == 'list' else (v[1] if v else None)) for k, v in strides.items()})
+    return (det is not None, (det or 'agrees') + ' [interpreter, concrete, sparse arrays, strides %s]' % rep['strides'], rep)
 
 SZ = 96
-def native_run(ctx, m, info, cfg, cs, rng):
+def native_run(ctx, m, info, cfg, cs, rng, fill=None):
     lib = core.native(ctx.bdir, cfg)
+    def val(g):
+        if fill and g in fill: return fill[g] & (2**64 - 1)
+        return rng.getrandbits(64) % P
     n = info['n']; U = ctypes.c_uint64
     def stride_for(r, key):
         if r.stride is None: return None
@@ -305,9 +422,9 @@ def native_run(ctx, m, info, cfg, cs, rng):
         return ('list', vs)
     bufs = {}; args = {}; strides = {}
     vals = {}
-    def mkarr(g, fill=True):
+    def mkarr(g, fill=True):   # (the parameter shadows the outer fill on purpose: True = input array)
         b = core.abuf(SZ, 64)
-        for i in range(SZ): b[i] = (rng.getrandbits(64) % P) if fill else 0x0D0D0D0D0D0D0D0D
+        for i in range(SZ): b[i] = val(g) if fill else 0x0D0D0D0D0D0D0D0D
         bufs[g] = b; return b
     def off(r, st, k, i):
         if r.const: return i
@@ -326,13 +443,13 @@ def native_run(ctx, m, info, cfg, cs, rng):
             b = mkarr(g, not is_out); args[r.names[0]] = b
             return [[b[off(r, st, k, i)] for i in range(r.dim)] for k in range(n)]
         if r.kind == 'bcast':
-            v = rng.getrandbits(64) % P; args[r.names[0]] = U(v); return [[v] for k in range(n)]
+            v = val(g); args[r.names[0]] = U(v); return [[v] for k in range(n)]
         if r.kind == 'reg':
-            vs = [rng.getrandbits(64) % P for k in range(n)]; b = kern.u64buf(vs); bufs[g] = b; args[r.names[0]] = b; return [[v] for v in vs]
+            vs = [val(g) for k in range(n)]; b = kern.u64buf(vs); bufs[g] = b; args[r.names[0]] = b; return [[v] for v in vs]
         if r.kind == 'planar':
-            vs = [[rng.getrandbits(64) % P for i in range(3)] for k in range(n)]; b = kern.u64buf([vs[k][i] for i in range(3) for k in range(n)]); bufs[g] = b; args[r.names[0]] = b; return vs
+            vs = [[val(g) for i in range(3)] for k in range(n)]; b = kern.u64buf([vs[k][i] for i in range(3) for k in range(n)]); bufs[g] = b; args[r.names[0]] = b; return vs
         if r.kind == 'planar3':
-            vs = [[rng.getrandbits(64) % P for i in range(3)] for k in range(n)]; bufs[g] = []
+            vs = [[val(g) for i in range(3)] for k in range(n)]; bufs[g] = []
             for i in range(3):
                 b = kern.u64buf([vs[k][i] for k in range(n)]); bufs[g].append(b)
                 if r.byval and not is_out:
